@@ -72,6 +72,10 @@ func showAttrs(as stun.Attributes) string {
 	parts := make([]string, len(as))
 	for i, a := range as {
 		parts[i] = fmt.Sprintf("%d:%d:%s", uint16(a.Type), a.Length, showHex(a.Value))
+		// RFC 5389 s15: 0x0000-0x7FFF comprehension-required, 0x8000-0xFFFF comprehension-optional
+		if a.Type.Required() != (uint16(a.Type) <= 0x7FFF) || a.Type.Optional() == a.Type.Required() {
+			parts[i] += "!required-optional-range"
+		}
 	}
 	return strings.Join(parts, ";")
 }
